@@ -193,11 +193,12 @@ def inflate(b):
     return zlib.decompress(b, -zlib.MAX_WBITS)
 
 
-def encrypt_compact(protected, plaintext, key):
+def encrypt_compact(protected, plaintext, key, spaced=False):
+    """spaced: the header JSON is laid out with spaces and sorted keys — a different but equally valid UTF-8 encoding of the same header"""
     alg, enc = protected["alg"], protected["enc"]
     cek, ek, extra = wrap(alg, enc, key, protected)
     protected = dict(protected, **extra)
-    ps = b64e(json.dumps(protected, separators=(",", ":")).encode())
+    ps = b64e((json.dumps(protected, sort_keys=True, indent=1) if spaced else json.dumps(protected, separators=(",", ":"))).encode())
     iv = os.urandom(iv_len(enc))
     pt = deflate(plaintext) if protected.get("zip") == "DEF" else plaintext
     ct, tag = content_encrypt(enc, cek, iv, ps.encode("ascii"), pt)
@@ -223,7 +224,7 @@ def decrypt_compact(token, key):
     return protected, pt
 
 
-def encrypt_json(protected, unprotected, recipients, aad, plaintext):
+def encrypt_json(protected, unprotected, recipients, aad, plaintext, spaced=False):
     """general JSON serialization; recipients = [(per-recipient header, key)]; alg / enc may sit in any of the three headers"""
     merged0 = dict(protected or {}, **(unprotected or {}))
     enc = merged0["enc"]
@@ -242,7 +243,7 @@ def encrypt_json(protected, unprotected, recipients, aad, plaintext):
                 cek = os.urandom(cek_len(enc))
             ek, extra = wrap_given(alg, enc, key, m, cek)
         recs.append({"header": dict(hdr or {}, **extra), "encrypted_key": b64e(ek)})
-    ps = b64e(json.dumps(prot, separators=(",", ":")).encode()) if prot else ""
+    ps = b64e((json.dumps(prot, sort_keys=True, indent=1) if spaced else json.dumps(prot, separators=(",", ":"))).encode()) if prot else ""
     a = ps.encode("ascii") + ((b"." + b64e(aad).encode()) if aad is not None else b"")
     iv = os.urandom(iv_len(enc))
     pt = deflate(plaintext) if merged0.get("zip") == "DEF" else plaintext
